@@ -76,7 +76,119 @@ theorem skel_doapprove_Main (b : Backend) : skel (doApproveMainSkel b) [] = doap
 theorem skel_status_SetApprove : skel setApproveSkel [] = status_SetApprove := by decide
 theorem skel_status_SetCompare : skel setCompareSkel [] = status_SetCompare := by decide
 
-/-- every generated skeleton is covered by one of the theorems above -/
-theorem skel_all_covered : allNames.length = 55 := by decide
+/-! ### LoadDevice (login and retrieval) of the five backends -/
+
+theorem skel_cisco_LoginEnable : skel ciscoLoginEnableBody [] = cisco_LoginEnable := by decide
+theorem skel_cisco_LoginEnable_waitPrompt (t : Txt) : skel (ciscoWaitPromptBody t) [] = cisco_LoginEnable_waitPrompt := by rfl
+theorem skel_httpdevice_TryReachableHTTPLogin (login : Sess) :
+    skel (tryReachableBody login) [] = httpdevice_TryReachableHTTPLogin := by rfl
+theorem skel_asa_LoadDevice : skel asaLoadDevice [] = asa_LoadDevice := by decide
+theorem skel_asa_setTerminal : skel asaSetTerminal [] = asa_setTerminal := by decide
+theorem skel_asa_logVersion : skel asaLogVersionBody [] = asa_logVersion := by decide
+theorem skel_asa_checkDeviceName : skel asaCheckDeviceNameBody [] = asa_checkDeviceName := by decide
+theorem skel_ios_LoadDevice : skel iosLoadDevice [] = ios_LoadDevice := by decide
+theorem skel_ios_setTerminal : skel iosSetTerminalBody [] = ios_setTerminal := by decide
+theorem skel_ios_logVersion : skel iosLogVersionBody [] = ios_logVersion := by decide
+theorem skel_ios_checkDeviceName : skel iosCheckDeviceNameBody [] = ios_checkDeviceName := by decide
+theorem skel_linux_LoadDevice : skel linuxLoadDevice [] = linux_LoadDevice := by decide
+theorem skel_linux_loginEnable : skel linuxLoginEnableBody [] = linux_loginEnable := by decide
+theorem skel_linux_logVersion : skel linuxLogVersionBody [] = linux_logVersion := by decide
+theorem skel_linux_checkDeviceName : skel linuxCheckDeviceNameBody [] = linux_checkDeviceName := by decide
+theorem skel_linux_checkBanner : skel linuxCheckBannerBody [] = linux_checkBanner := by decide
+theorem skel_linux_getDeviceRoutes : skel linuxGetDeviceRoutesBody [] = linux_getDeviceRoutes := by decide
+theorem skel_linux_getDeviceIPTables : skel linuxGetDeviceIPTablesBody [] = linux_getDeviceIPTables := by decide
+theorem skel_panos_LoadDevice : skel panosLoadDevice [] = panos_LoadDevice := by decide
+theorem skel_panos_getAPIKey : skel panosGetAPIKeyBody [] = panos_getAPIKey := by decide
+theorem skel_panos_checkHA : skel panosCheckHABody [] = panos_checkHA := by decide
+theorem skel_nsx_LoadDevice : skel nsxLoadDevice [] = nsx_LoadDevice := by decide
+theorem skel_nsx_getRawJSON (t : Txt) : skel (nsxGetRawJSONBody t) [] = nsx_getRawJSON := by rfl
+
+/-- The Lean session program (one instance of each) behind every function of interest, by the
+name the translator gives its skeleton. -/
+def covered : List (String × List Site) := [
+  ("console_Send", skel (sendBody .setup .cur) []),
+  ("console_SendCmd", skel (sendCmdBody .setup .cur) []),
+  ("console_IssueCmd", skel (issueCmdBody .setup .cur .std) []),
+  ("console_GetCmdOutput", skel (getCmdOutputBody .setup .cur) []),
+  ("console_GetOutput", skel (getOutputBody .setup) []),
+  ("console_waitPrompt", skel (waitPromptBody .setup .std) []),
+  ("console_WaitShort", skel (waitShortBody .setup .std) []),
+  ("console_WaitLogin", skel (waitLoginBody .setup .std) []),
+  ("console_expectLog", skel (expectLogBody .setup .std) []),
+  ("console_StripEcho", skel stripEchoBody []),
+  ("console_StripStdPrompt", skel stripStdPromptBody []),
+  ("console_Close", skel closeBody []),
+  ("errlog_HandleAbort", skel handleAbortSkel []),
+  ("errlog_Abort", skel abortSkel []),
+  ("cisco_LoginEnable", skel ciscoLoginEnableBody []),
+  ("cisco_LoginEnable_waitPrompt", skel (ciscoWaitPromptBody .cur) []),
+  ("httpdevice_TryReachableHTTPLogin", skel (tryReachableBody .skip) []),
+  ("asa_ApplyCommands", skel asaApplyBody []),
+  ("asa_cmd", skel (asaCmdBody .change .cur) []),
+  ("asa_cmd_check", skel (asaCheckBody .change) []),
+  ("asa_CloseConnection", skel (Backend.closeConnectionBody .asa) []),
+  ("asa_LoadDevice", skel asaLoadDevice []),
+  ("asa_setTerminal", skel asaSetTerminal []),
+  ("asa_logVersion", skel asaLogVersionBody []),
+  ("asa_checkDeviceName", skel asaCheckDeviceNameBody []),
+  ("ios_ApplyCommands", skel iosApplyBody []),
+  ("ios_cmd", skel (iosCmdBody .change .cur) []),
+  ("ios_cmd_check", skel (iosCheckBody .change) []),
+  ("ios_writeMem", skel iosWriteMemBody []),
+  ("ios_prepareDevice", skel iosPrepareDeviceBody []),
+  ("ios_scheduleReload", skel (iosSendReloadCmd false) []),
+  ("ios_extendReload", skel (iosSendReloadCmd true) []),
+  ("ios_sendReloadCmd", skel (iosSendReloadCmdBody false) []),
+  ("ios_cancelReload", skel iosCancelReloadBody []),
+  ("ios_CloseConnection", skel (Backend.closeConnectionBody .ios) []),
+  ("ios_LoadDevice", skel iosLoadDevice []),
+  ("ios_setTerminal", skel iosSetTerminalBody []),
+  ("ios_logVersion", skel iosLogVersionBody []),
+  ("ios_checkDeviceName", skel iosCheckDeviceNameBody []),
+  ("linux_ApplyCommands", skel linuxApplyBody []),
+  ("linux_cmd", skel (linuxCmdBody .change .cur) []),
+  ("linux_cmd_check", skel (linuxCheckBody .change) []),
+  ("linux_writeStartupRouting", skel linuxWriteStartupRoutingBody []),
+  ("linux_writeStartupIPTables", skel linuxWriteStartupIPTablesBody []),
+  ("linux_findIPTablesRestoreCmd", skel linuxFindRestoreBody []),
+  ("linux_writeStartup", skel (linuxWriteStartupBody "routing") []),
+  ("linux_putScp", skel (linuxPutScpBody "routing") []),
+  ("linux_CloseConnection", skel (Backend.closeConnectionBody .linux) []),
+  ("linux_LoadDevice", skel linuxLoadDevice []),
+  ("linux_loginEnable", skel linuxLoginEnableBody []),
+  ("linux_logVersion", skel linuxLogVersionBody []),
+  ("linux_checkDeviceName", skel linuxCheckDeviceNameBody []),
+  ("linux_checkBanner", skel linuxCheckBannerBody []),
+  ("linux_getDeviceRoutes", skel linuxGetDeviceRoutesBody []),
+  ("linux_getDeviceIPTables", skel linuxGetDeviceIPTablesBody []),
+  ("panos_ApplyCommands", skel panosApplyBody []),
+  ("panos_ApplyCommands_doCmd", skel (panosDoCmdBody .change .cur) []),
+  ("panos_ApplyCommands_commit", skel panosCommitBody []),
+  ("panos_httpPrefixGetLog", skel (panosHttpPrefixGetLogBody .change .cur) []),
+  ("panos_httpGet", skel (panosHttpGetBody .change .cur) []),
+  ("panos_CloseConnection", skel (Backend.closeConnectionBody .panos) []),
+  ("panos_LoadDevice", skel panosLoadDevice []),
+  ("panos_getAPIKey", skel panosGetAPIKeyBody []),
+  ("panos_checkHA", skel panosCheckHABody []),
+  ("nsx_ApplyCommands", skel nsxApplyBody []),
+  ("nsx_sendRequest", skel (nsxSendRequestBody .change .cur) []),
+  ("nsx_CloseConnection", skel (Backend.closeConnectionBody .nsx) []),
+  ("nsx_LoadDevice", skel nsxLoadDevice []),
+  ("nsx_getRawJSON", skel (nsxGetRawJSONBody .cur) []),
+  ("device_ApproveOrCompare", skel (approveOrCompareBody .asa) []),
+  ("device_approve", skel (approveBody .asa) []),
+  ("device_compare", skel (compareBody .asa) []),
+  ("device_compareDevice", skel (compareDeviceBody .asa) []),
+  ("device_applyCommands", skel (applyCommandsBody .asa) []),
+  ("device_showCompareInfo", skel showCompareInfoBody []),
+  ("doapprove_Main", skel (doApproveMainSkel .asa) []),
+  ("status_SetApprove", skel setApproveSkel []),
+  ("status_SetCompare", skel setCompareSkel []) ]
+
+/-- **Every regenerated skeleton is covered, and nothing else**: the list of (name, skeleton) the
+translator writes on this run equals the list of (name, skeleton of the Lean program).  A function
+that appears in or disappears from the translator's set, a renamed one, or any changed call site
+breaks this single equality. -/
+theorem skel_all_covered : NA.Gen.Skel.all = covered := by decide
 
 end NA.C09
